@@ -291,3 +291,28 @@ PLANS["C10"] = {
                           "signals watched since construction"]),
     "floor": floor_counters(records_compared_bytewise=100, yields=500),
 }
+
+# ------------------------------------------------------------------------------------------- C11
+
+
+def c11_steps(tier, seed):
+    q = tier == "quick"
+    return [native("close-sweep-%d" % i, ["w_close", "--seed", seed * 10 + i, "--reps", 1 if q else 6, "--random", 120 if q else 3000],
+                   timeout=300 if q else 2400) for i in range(1 if q else 4)]
+
+
+PLANS["C11"] = {
+    "steps": c11_steps,
+    "evidence": assemble(
+        "fault_enumeration",
+        "injection points = front-end {wait, forever, poll_signal} x consumer failpoint {IT_PS_LOOP, IT_PS_ITER_EMPTY, "
+        "IT_PP_CLOSED_CHECKED, after-callback, IT_HAS_BEFORE_READ, IT_FLUSH_BEGIN/END, IT_SCAN, EX_LOAD} x occurrence 1..3 x "
+        "{no delivery, one delivery}: the consumer is paused there, close() is called on a handle clone from another thread, the "
+        "consumer is released; plus the closer paused between setting the flag and sending the wake; plus random-timing trials with "
+        "delays at all those sites and concurrent deliveries. A trial is non-trivial when the pause site was actually reached; "
+        "distinct = distinct (front-end, paused party, site, occurrence, delivery) tuples",
+        ["'returns after a bounded number of steps' is decided by the stable stuck state (blocked per /proc on an empty self-pipe "
+         "after close() returned), never by elapsed time",
+         "the real async adapters are not run here; the harness is the caller of the same public poll_signal with its own callback"]),
+    "floor": floor_counters(trials_consumer_paused=40, trials_closer_paused=6, poll_pending_results_checked=20),
+}
